@@ -322,6 +322,13 @@ Proof.
   - unfold is_def_msg, wire. cbn [mk norm_msg]. destruct (def_msg_attrs d g v Hon) as (_ & _ & ->). rewrite def_kind_def. reflexivity.
 Qed.
 
+Lemma filter_taken_nonblob ms :
+  Forall (fun m => is_blob_msg m = false) ms -> filter taken_from_blob_connection (map wire ms) = [].
+Proof.
+  induction 1 as [|m0 l Hb _ IH]; [reflexivity|]. cbn [map filter].
+  assert (taken_from_blob_connection (wire m0) = false) as -> by exact Hb. exact IH.
+Qed.
+
 Theorem handshake_connects_and_syncs s c e d :
   fresh s c e d -> dev_ok d -> (exists g v, In (g, v) (all_vecs d) /\ vec_on g v = true) ->
   exists c',
@@ -341,7 +348,7 @@ Proof.
   set (s2 := set_client s1 c2).
   set (c3 := with_inboxes c2 [] []).
   set (cA := with_mirror c3 (feed (cl_mirror c3) (map wire (defs_of d)))).
-  set (cB := with_mirror cA (feed (cl_mirror cA) (map wire (defs_of d) ++ [wire getprops_all]))).
+  set (cB := with_mirror cA (cl_mirror cA)).
   set (s3 := {| sy_r := sy_r s2; sy_devs := sy_devs s2; sy_cls := [cB]; sy_oof := sy_oof s2 |}).
   set (r3 := {| devices := devices (sy_r s3); clients := clients (sy_r s3);
                 blob := aset N.eqb (cl_ctl c) (aset dname_eqb (Some (d_name d)) Never []) (blob (sy_r s3)) |}).
@@ -352,10 +359,13 @@ Proof.
   assert (U3 : dget cd_name dn (cl_mirror c3) = None) by (unfold c3, c2, add_blob, both, c1; cbn [cl_mirror with_inboxes with_up]; rewrite Mir; reflexivity).
   destruct (consume_unknown (map wire (defs_of d)) c3 [] dn U3 Ab) as [CA KA].
   rewrite (existsb_def_defs d Vis) in CA. specialize (KA (existsb_def_defs d Vis)). cbn [app] in CA. fold cA in CA.
-  assert (Hh : Forall (harmless dn) (map wire (defs_of d) ++ [wire getprops_all])).
-  { apply Forall_app. split; [eapply Forall_impl; [|exact Ab]; intros m Hm; left; exact Hm|]. constructor; [right; reflexivity|constructor]. }
   assert (KA' : dget cd_name dn (cl_mirror cA) <> None) by exact KA.
-  destruct (consume_harmless (map wire (defs_of d) ++ [wire getprops_all]) cA [] dn KA' Hh) as [CB KB]. fold cB in CB.
+  assert (Fl : filter taken_from_blob_connection (map wire (defs_of d) ++ [wire getprops_all]) = []).
+  { rewrite filter_app. cbn [filter]. assert (taken_from_blob_connection (wire getprops_all) = false) as -> by reflexivity. rewrite app_nil_r.
+    apply filter_taken_nonblob. eapply Forall_impl; [|exact (defs_about d)]. intros m0 [_ Hb]. exact Hb. }
+  assert (CB : fold_left consume_step (filter taken_from_blob_connection (map wire (defs_of d) ++ [wire getprops_all])) (cA, []) = (cB, [])).
+  { rewrite Fl. cbn [fold_left]. unfold cB. destruct cA; reflexivity. }
+  assert (KB : dget cd_name dn (cl_mirror cB) <> None) by exact KA'.
   (* the whole operation, as one equation *)
   assert (FIN : sstep s (SHandshake 0) = with_r (with_r s3 r3) r4).
   { assert (S1 : sstep s (SHandshake 0) = settle FUEL (cascade FUEL s1 getprops_all (Some (cl_ctl c1)))).
@@ -393,9 +403,8 @@ Proof.
     apply settle_quiet. reflexivity. }
   rewrite FIN.
   exists cB.
-  assert (Mc : cl_mirror cB = feed [] (map wire (defs_of d ++ defs_of d ++ [getprops_all]))).
-  { unfold cB, cA. cbn [cl_mirror with_mirror]. unfold c3, c2, add_blob, both, c1. cbn [cl_mirror with_inboxes with_up]. rewrite Mir.
-    rewrite !map_app, !feed_app. reflexivity. }
+  assert (Mc : cl_mirror cB = feed [] (map wire (defs_of d))).
+  { unfold cB, cA. cbn [cl_mirror with_mirror]. unfold c3, c2, add_blob, both, c1. cbn [cl_mirror with_inboxes with_up]. rewrite Mir. reflexivity. }
   split; [reflexivity|]. split; [|split; [reflexivity|split; [reflexivity|split; [|split; [apply find_dev_one; reflexivity|split; reflexivity]]]]].
   - constructor; cbn [sy_cls sy_r with_r]; try reflexivity; try exact Net; try exact Diff.
     + unfold policy_of, r4. cbn [blob sy_r with_r r3 s3 s2 set_client s1 r2 alookup devices clients]. unfold aset. cbn [aremove alookup].
@@ -411,17 +420,9 @@ Proof.
     { rewrite (Driver.Props.getprops_all d None (dev_ok_quiet d D) (dk_names d D)). cbn [snd]. apply publishes_defs. }
     assert (Sy1 : synced (feed [] (defs_of d)) d).
     { rewrite <- E1. apply handshake_synced; [exact D|intros cd []|reflexivity]. }
-    assert (Sy2 : synced (feed (feed [] (defs_of d)) (defs_of d)) d).
-    { destruct (step_synced d (OFromClient (getprops None None)) (feed [] (defs_of d)) D Sy1 I) as (_ & Sx & _).
-      cbn [step] in Sx. rewrite E1 in Sx. rewrite (Driver.Props.getprops_all d None (dev_ok_quiet d D) (dk_names d D)) in Sx. exact Sx. }
-    assert (Eq0 : feed [] (defs_of d ++ defs_of d ++ [getprops_all]) = feed (feed [] (defs_of d)) (defs_of d)).
-    { rewrite !feed_app. cbn [feed fold_left]. reflexivity. }
-    exists (feed [] (defs_of d ++ defs_of d ++ [getprops_all])). split; [|split].
-    + rewrite Eq0. exact Sy2.
-    + rewrite Mc. unfold feed, wire. rewrite <- (feed_norm _ []). reflexivity.
-    + (* the device is known: the mirror of the client knows it, and normalisation keeps names *)
-      intro Hn. apply KB. change (feed (cl_mirror cA) (map wire (defs_of d) ++ [wire getprops_all])) with (cl_mirror cB). rewrite Mc.
-      pose proof (feed_norm (defs_of d ++ defs_of d ++ [getprops_all]) []) as FN. change (nm []) with (@nil cdev) in FN.
-      unfold feed. change wire with norm_msg. rewrite FN. unfold nm. rewrite (dget_map cd_name nm_dev (fun _ => eq_refl)).
-      unfold feed in Hn. fold dn in Hn. rewrite Hn. reflexivity.
+    pose proof (feed_norm (defs_of d) []) as FN. change (nm []) with (@nil cdev) in FN.
+    exists (feed [] (defs_of d)). split; [exact Sy1|]. split.
+    + rewrite Mc. unfold feed. change wire with norm_msg. exact FN.
+    + intro Hn. apply KB. rewrite Mc. unfold feed. change wire with norm_msg. rewrite FN. unfold nm.
+      rewrite (dget_map cd_name nm_dev (fun _ => eq_refl)). unfold feed in Hn. fold dn in Hn. rewrite Hn. reflexivity.
 Qed.
